@@ -196,11 +196,11 @@ namespace ip {
 	void udp::socket::abort_send_handlers()
 	{
 		if (m_send_handler)
-			post(m_io_service, make_malloc(std::bind(std::ref(m_send_handler)
+			post(m_io_service, make_malloc(std::bind(std::move(m_send_handler)
 				, boost::system::error_code(error::operation_aborted), std::size_t(0))));
 
 		if (m_wait_send_handler)
-			post(m_io_service, make_malloc(std::bind(std::ref(m_wait_send_handler)
+			post(m_io_service, make_malloc(std::bind(std::move(m_wait_send_handler)
 				, boost::system::error_code(error::operation_aborted))));
 
 		m_send_timer.cancel();
@@ -237,10 +237,17 @@ namespace ip {
 			if (m_next_send - now > m_send_queue_time / 2)
 			{
 				// our send queue is too large. Defer
-				m_recv_timer.expires_at(m_next_send + m_send_queue_time / 2);
+				m_send_timer.expires_at(m_next_send + m_send_queue_time / 2);
 
 				m_wait_send_handler = std::move(handler);
-				m_recv_timer.async_wait(make_malloc(std::bind(std::ref(m_wait_send_handler), no_error)));
+				m_send_timer.async_wait([this](boost::system::error_code const& ec)
+				{
+					// an aborted wait is completed by abort_send_handlers()
+					if (ec || !m_wait_send_handler) return;
+					auto h = std::move(m_wait_send_handler);
+					m_wait_send_handler = nullptr;
+					h(boost::system::error_code());
+				});
 				return;
 			}
 
